@@ -13,5 +13,15 @@ def run(tier, seed, replay=None):
     X = cext.make_externals()
     fs_common.add_fs_obligations(ck, tu, X, "C11")
     ck.discharge()
+    from checks import replay_py, pyload
+    n = 600 if tier == "thorough" else 60
+    r = replay_py.run_driver("session_history.py", {"seed": seed, "cases": n, "max_failures": 3}, timeout=3000)
+    ck.bounded_runs.append(("bounded.sessions_and_directories", "%d scenarios: 2-4 sessions over 1-3 top-level directories (one file period never in two directories), "
+                            "single-parameter mismatches refused with the directory byte-identical, writes into finalized periods refused with the writer still usable, "
+                            "reader over all directories = union of the sessions (bounds, blocks, values)" % n, r["cases"], r["failures"]))
+    mod = pyload.module("digital_rf_hdf5", symbolic=False)
+    for nm in ("DigitalRFReader.__init__", "DigitalRFReader.get_bounds", "DigitalRFReader.read"):
+        ck.add_function(pyload.source_info(mod, nm))
+    ck.assumptions += ["reader-side union over sessions / top-level directories is covered by the bounded differential only (labelled bounded)"]
     ck.extra["explanation"] = "effect-order / frame obligations evaluated at every file-system and HDF5 call site on every explored path of the writer (loop-free functions: complete path enumeration)"
     return ck
